@@ -60,7 +60,7 @@ def c09():
             ]),
         ],
         level="exploration",
-        rule=("rapidcheck cases over the 32 table curves (cofactor-4 curves weighted up): codec = (point class {kG, G, -G, 2G, infinity, "
+        rule=("rapidcheck cases over the 32 table curves (curves whose group is larger than <G> - decided from the group order, not from the table cofactor - weighted up; a quarter of the imports go into a point object that held the neutral element before): codec = (point class {kG, G, -G, 2G, infinity, "
               "outside the order-n subgroup, small order} x encoding {compressed, packed 04, split x|y, concatenated, hybrid 06/07} x "
               "{be, le} x one of 12 mutations built from the valid octets); keys = key generation / public-key recovery over scalar "
               "classes and rnd / key sizes; dh = key pairs, cofactor on/off, peer key in every encoding, degenerate peers; sizes = size "
@@ -82,7 +82,7 @@ MANIFEST = {"C09": dict(
     text=("Generated-input search: export/import round trips and SEC1 octet equality in all forms and both byte orders; import accept/reject "
           "equals the reference predicate 'neutral element, or on the curve with coordinates < p and annihilated by n' for valid and "
           "constructed-invalid encodings (off-curve, out of range, wrong prefix/parity, truncated/extended, no square root, points outside the "
-          "subgroup on the cofactor-4 curves); key generation, public-key recovery and (cofactor) Diffie-Hellman equal the reference, DH is "
+          "subgroup on every curve whose group order exceeds n); key generation, public-key recovery and (cofactor) Diffie-Hellman equal the reference, DH is "
           "symmetric; every byte-string argument is an exact-size allocation so that ASan / guard bytes see any access outside the sizes "
           "passed. 5 (quick) / 8 (thorough) build variants with and without EC_DISABLE_PUB_KEY_CHK."),
     design_ref="DESIGN.md section 4 C09, hypothesis H-EC-3",
